@@ -48,7 +48,7 @@ class C19(Check):
     level = "exploration"
     engine = "clock"
     design_ref = "§6 C19"
-    rule = ("seeded sequences of value-set / update / change / create / item get, set and delete with valid and invalid field "
+    rule = ("seeded sequences of value-set / update / change / create (single field and the general form: several positional dicts / duple lists plus keywords) / item get, set and delete with valid and invalid field "
             "names / deck push, pull, gulp (incl. None), spew, interleaved with store clock advances, detaching the share "
             "from its store and attaching it to another store with a different time; a model is compared after every step; "
             "non-trivial = the clock moved between two stamping operations or an operation was rejected; distinct = digest "
@@ -56,7 +56,8 @@ class C19(Check):
     components = {"real": ["ioflo.base.storing.Share", "ioflo.base.storing.Data", "ioflo.base.storing.Deck", "ioflo.base.storing.Store (stamp)"],
                   "stub": ["store clock advanced by the simulator"]}
     assumptions = ["invalid names are exercised one field per call (what a multi-field call does after a rejected name is not stated)"]
-    required_probes = ["rejected-name", "create-existing", "create-new", "no-store", "store-replaced", "spew-empty", "gulp-none", "delete-readd"]
+    required_probes = ["rejected-name", "create-existing", "create-new", "no-store", "store-replaced", "spew-empty", "gulp-none", "delete-readd",
+                       "multi-source", "create-multi-last-source-adds-nothing"]
     quick_runs = 30000
     thorough_runs = 1500000
     shrink_fields = ["ops"]
@@ -64,7 +65,9 @@ class C19(Check):
     def directed(self):
         return [{"ops": [["value", 1], ["adv", 3], ["create", "a", 2], ["adv", 1], ["create", "a", 9], ["change", "a", 5], ["adv", 2], ["update", "b2", 1],
                          ["set", "_private", 1], ["del", "a"], ["set", "a", 7], ["detach"], ["value", 4], ["attach", 50], ["update", "a", 1],
-                         ["push", 1], ["gulp", None], ["gulp", 2], ["pull"], ["spew"], ["spew"], ["get", "zz"], ["create", "9lives", 1]]}]
+                         ["push", 1], ["gulp", None], ["gulp", 2], ["pull"], ["spew"], ["spew"], ["get", "zz"], ["create", "9lives", 1],
+                         ["adv", 2], ["multi", "create", [["dict", [["q1", 1]]], ["duples", [["a", 3], ["q2", 2]]], ["kw", [["a", 4]]]]],
+                         ["adv", 1], ["multi", "update", [["duples", [["a", 5], ["a", 6]]], ["kw", [["q1", 0]]]]], ["adv", 1], ["multi", "change", [["dict", [["q3", 1]]]]]]}]
 
     def generate(self, S, index, tier):
         g = S.gen
@@ -79,8 +82,16 @@ class C19(Check):
                 ops.append(["update", name, v])
             elif r < 0.34:
                 ops.append(["change", name, v])
-            elif r < 0.46:
+            elif r < 0.40:
                 ops.append(["create", name, v])
+            elif r < 0.46:
+                # the general call form: positional dicts / lists of duples followed by keywords, valid names only
+                srcs = []
+                for _ in range(g.randint(1, 3)):
+                    srcs.append([g.choice(["dict", "duples"]), [[g.choice(GOOD), g.choice([0, 1, -2.5, "s", None, True])] for _ in range(g.randint(0, 2))]])
+                if g.random() < 0.6:
+                    srcs.append(["kw", [[g.choice(GOOD), g.choice([0, 1, "s", None])] for _ in range(g.randint(0, 2))]])
+                ops.append(["multi", g.choice(["create", "create", "update", "change"]), srcs])
             elif r < 0.54:
                 ops.append(["set", name, v])
             elif r < 0.60:
@@ -164,6 +175,39 @@ class C19(Check):
                             m.put(k, v)
                             if code == "update":
                                 m.stamp = now
+                elif code == "multi":
+                    pa, kwa, flat = [], {}, []
+                    for kind, pairs in op[2]:
+                        if kind == "kw":
+                            seenk = {}
+                            for k, v in pairs:
+                                seenk[k] = v
+                            kwa = seenk
+                            flat.extend(seenk.items())
+                        elif kind == "dict":
+                            d = {}
+                            for k, v in pairs:
+                                d[k] = v
+                            pa.append(d)
+                            flat.extend(d.items())
+                        else:
+                            pa.append([(k, v) for k, v in pairs])
+                            flat.extend((k, v) for k, v in pairs)
+                    getattr(sh, op[1])(*pa, **kwa)
+                    out.probe("multi-source")
+                    added = []
+                    for k, v in flat:
+                        had, _ = m.get(k)
+                        if op[1] == "create":
+                            if not had:
+                                m.put(k, v)
+                                added.append(k)
+                        else:
+                            m.put(k, v)
+                    if op[1] == "update" or (op[1] == "create" and added):
+                        m.stamp = now
+                    if op[1] == "create" and added and flat[-1][0] not in added:
+                        out.probe("create-multi-last-source-adds-nothing")
                 elif code == "get":
                     had, v = m.get(op[1])
                     want_exc = not had
